@@ -127,11 +127,22 @@ Features(s, o) ==
   (IF o.op = "def" /\ o.a = "fn" /\ s.own[c]["fn"][o.b] = Absent /\ s.own[c]["var"][o.b] = Absent
       /\ \E q \in P : InSeq(q, s.uses[c]) /\ o.b \in s.exported[q] /\ s.own[q]["var"][o.b] = Absent
    THEN {"defun-over-inherited-bare-export"} ELSE {})
+  \cup
+  \* setq of a name the package does not own while a used package exports that name without a value: slip sets the
+  \* exporter's variable (as Common Lisp would: it is the exporter's symbol), the statement's reading makes it the
+  \* setting package's own (finding C13-F9)
+  (IF o.op = "def" /\ o.a = "var" /\ s.own[c]["var"][o.b] = Absent
+      /\ \E q \in P : InSeq(q, s.uses[c]) /\ o.b \in s.exported[q] /\ s.own[q]["var"][o.b] = Absent
+   THEN {"setq-over-inherited-bare-export"} ELSE {})
 
 \* tags raised by a state (evaluated on the successor states of a step)
+\* "use-chain": a package uses a package that itself uses a third one.  slip hands the user, at the time of the
+\* use-package, also what the used package had inherited by then (finding C13-F8); the reference resolves through the
+\* packages used directly only.
 StateFeatures(s) ==
-  IF \E p \in P, k \in Kinds, n \in N : n \in s.exported[p] /\ s.own[p][k][n] = Absent /\ Providers(s, p, k, n) # <<>>
-  THEN {"bare-export-shadows-inherited"} ELSE {}
+  (IF \E p \in P, k \in Kinds, n \in N : n \in s.exported[p] /\ s.own[p][k][n] = Absent /\ Providers(s, p, k, n) # <<>>
+   THEN {"bare-export-shadows-inherited"} ELSE {})
+  \cup (IF \E p \in P : \E i \in 1..Len(s.uses[p]) : s.uses[s.uses[p][i]] # <<>> THEN {"use-chain"} ELSE {})
 
 (***************************************************************************)
 (* Properties of the reference itself, checked by TLC in PackagesGen.      *)
